@@ -138,9 +138,12 @@ class FileResponseMixin:
         }
         if download_name or content_type == "application/octet-stream":
             download_name = download_name or os.path.basename(filepath)
+            # header values must be Latin-1: characters outside it only appear
+            # in the RFC 5987 `filename*` parameter
+            fallback_name = download_name.encode("latin-1", "replace").decode("latin-1")
             content_disposition = (
                 "attachment; "
-                f'filename="{download_name}"; '
+                f'filename="{fallback_name}"; '
                 f"filename*=utf-8''{quote(download_name)}"
             )
             headers["content-disposition"] = content_disposition
